@@ -339,7 +339,7 @@ def run_impl(config, history):
 FORCED = ("exc_classes", "nonfinite_positions", "grad_zero", "grad_tiny", "grad_noncontig", "grad_huge", "grad_poison_variants",
           "alternating_equal_shapes", "solver_newton", "solver_higher_order", "two_groups", "no_bias_correction", "weight_decay_momentum",
           "inv_root_override", "large_N", "large_freq", "scalar_or_single_element_param", "storage_f16", "storage_bf16", "storage_f32_pre64",
-          "all_dims_ignored", "empty_param")
+          "all_dims_ignored", "empty_param", "mixed_factor_outcomes")
 
 
 def gen_config(rng: random.Random, force: str | None = None) -> dict:
@@ -392,7 +392,10 @@ def gen_config(rng: random.Random, force: str | None = None) -> dict:
     elif force == "grad_huge":
         cfg["pdtype"] = rng.choice(("f32", "f64"))
     elif force == "grad_noncontig":
-        cfg.update(merge=False, shapes=[[3, 4]] + cfg["shapes"][1:])
+        cfg.update(shapes=[[3, 4]] + cfg["shapes"][1:])      # with and without use_merge_dims (reshape since b60e9a9)
+    elif force == "mixed_factor_outcomes":
+        cfg.update(shapes=[rng.choice(([3, 4], [2, 3, 2], [4, 3]))] + cfg["shapes"][1:], mpd=1024, merge=False, ignored_dims=[],
+                   N=rng.choice((0, 1, 2)))
     if force == "inv_root_override":
         cfg["ignored_dims"] = []
     if cfg["ignored_dims"]:
@@ -435,12 +438,6 @@ def gen_history(rng: random.Random, config: dict, nfs: list, block2param: list, 
     windows = [(rng.randint(1, T), rng.randint(1, T)) for _ in range(nparams)]
     forced_g = {"grad_zero": ("zero",), "grad_tiny": ("tiny", "tiny2"), "grad_noncontig": ("noncontig",), "grad_huge": ("huge",)}.get(force)
     gpool = ("zero", "tiny", "tiny2", "noncontig", "huge")
-    if config["merge"]:
-        # a gradient with non-default strides cannot be `view`ed to the merged dims (_merge_and_block_gradients raises a
-        # RuntimeError unrelated to C13): generated only without use_merge_dims
-        gpool = tuple(x for x in gpool if x != "noncontig")
-        if forced_g == ("noncontig",):
-            forced_g = None
     hist = []
     for t in range(1, T + 1):
         if pres_kind == "all":
@@ -456,6 +453,7 @@ def gen_history(rng: random.Random, config: dict, nfs: list, block2param: list, 
         if rng.random() < 0.04:
             pres = [False] * nparams
         script = []
+        mixed = [rng.randint(1, max(1, (1 << nfs[b]) - 2)) for b in range(nbk)]     # neither all-ok nor all-fail
         for b in range(nbk):
             row = []
             for k in range(nfs[b]):
@@ -466,6 +464,9 @@ def gen_history(rng: random.Random, config: dict, nfs: list, block2param: list, 
                     code = "raise"
                 elif fault_kind == "burst" and burst[0] <= t < burst[0] + burst[1] and (b, k) in always:
                     code = "raise"
+                if force == "mixed_factor_outcomes" and nfs[b] >= 2 and rng.random() < 0.7:
+                    # within one block and one refresh: some factors throw, others compute fine ([fail, ok], [ok, fail], [fail, ok, ok] ...)
+                    code = "raise" if (mixed[b] >> k) & 1 else "ok"
                 if code == "raise" and exc_variety:
                     code = "raise:" + rng.choice(RAISE_CLASSES)
                 if nonfinite and rng.random() < (0.08 if force == "nonfinite_positions" else 0.04):
@@ -522,6 +523,19 @@ def enum_cases(kind: str, N: int, freq: int, start: int, length: int):
         hist = [{"present": [x != 0 for x in stp], "script": [["raise" if x == 2 else "ok"] for x in stp],
                  "gseed": 1000 + 17 * t, "poison": [None, None]} for t, stp in enumerate(combo)]
         yield (config, hist, {"presence": "enumerated", "faults": "enumerated", "nonfinite_results": False, "poison": False})
+
+
+def enum_factor_cases(kind: str, N: int, shape: list, length: int):
+    """Every history of `length` refresh steps over ONE block with len(shape) factors: per step the block is absent or
+    present with every combination of per-factor outcomes ok / fail."""
+    import itertools
+    nf = len(shape)
+    config = dict(ENUM_BASE, kind=kind, N=N, freq=1, start=1, shapes=[list(shape)])
+    per_step = [None] + list(itertools.product(("ok", "raise"), repeat=nf))
+    for combo in itertools.product(per_step, repeat=length):
+        hist = [{"present": [stp is not None], "script": [list(stp) if stp is not None else ["ok"] * nf],
+                 "gseed": 2000 + 13 * t, "poison": [None]} for t, stp in enumerate(combo)]
+        yield (config, hist, {"presence": "enumerated", "faults": "enumerated-per-factor", "nonfinite_results": False, "poison": False})
 
 
 def corpus_cases():
@@ -735,6 +749,15 @@ def classes_of(c) -> list:
     rec = {x for o in obs for row in o["rout"] for x in row}
     if "ovf" in rec:
         out.append("result_overflows_storage_dtype(recorded)")
+    for o in obs:
+        if o["calls"] > 0:
+            for pb, row in zip(o["present_b"], o["rout"]):
+                if pb and "raise" in row and "ok" in row:
+                    out.append("refresh_with_failed_and_successful_factor_in_one_block")
+                    if row.index("raise") < len(row) - 1 - row[::-1].index("ok"):
+                        out.append("factor_succeeds_after_an_earlier_factor_of_the_block_failed")
+                    if row.index("ok") < len(row) - 1 - row[::-1].index("raise"):
+                        out.append("factor_fails_after_an_earlier_factor_of_the_block_succeeded")
     if any(o["out"][0] == "pve" for o in obs):
         out.append("step_raises_PreconditionerValueError")
     if any(o["out"][0] == "tol" for o in obs):
@@ -826,6 +849,10 @@ def run(ck: Check) -> None:
         enum_scopes = [("shampoo", 1, 1, 1, 3), ("soap_qr", 0, 1, 1, 3), ("soap_eigh", 1, 1, 2, 3)]
     for sc in enum_scopes:
         explicit += list(enum_cases(*sc))
+    # one block, every per-factor outcome combination per refresh: (kind, N, shape, length)
+    factor_scopes = [("shampoo", 1, [3, 4], 3), ("soap_eigh", 0, [3, 4], 3), ("soap_qr", 1, [2, 3, 2], 2)]
+    for sc in factor_scopes:
+        explicit += list(enum_factor_cases(*sc))
     flat = lambda ll: [c for l in ll for c in l]  # noqa: E731
     with mp.get_context("fork").Pool(16) as pool:
         cases_explicit = flat(pool.map(make_explicit, explicit, chunksize=32))
@@ -862,7 +889,7 @@ def run(ck: Check) -> None:
                         "the check, unlike the Shampoo list); reachable only when the routine returns a finite matrix that overflows the storage dtype: ")
                 sig = SOAP_OVERFLOW_SIG
             else:
-                what = ("real optimizer violates C13 (raise-iff-consecutive-failures / kept matrix / one warning per failure / finite stored / no parameter write on raise): "
+                what = ("real optimizer violates C13 (raise-iff-consecutive-failures / failed factor keeps its matrix / successful factor is stored / one warning per failure / finite stored / no parameter write on raise): "
                         if which == 1 else
                         "failure counters of the real optimizer are not the number of consecutive failed refreshes (observable behaviour still passes): ")
                 sig = signature_of(config, history)
@@ -915,9 +942,9 @@ def run(ck: Check) -> None:
         "evaluations": len(cases),
         "optimizer_steps": steps,
         "distinct_nontrivial": nontriv,
-        "rule": "one evaluation = one (configuration, presence history, fault script, parameter group) run of the real optimizer compared step by step with the model inside coqc; non-trivial = the run contains an exception or a non-zero failure counter. Sources: corpus/C13/*.json, then every history of the enumerated small scopes (two single-factor blocks, each per step absent/ok/fail; (kind,N,freq,start,length) in enumerated_scopes), then seeded random cases, then seeded cases forced into each class of FORCED",
+        "rule": "one evaluation = one (configuration, presence history, fault script, parameter group) run of the real optimizer compared step by step with the model inside coqc; non-trivial = the run contains an exception or a non-zero failure counter. Sources: corpus/C13/*.json, then every history of the enumerated small scopes (two single-factor blocks, each per step absent/ok/fail; (kind,N,freq,start,length) in enumerated_scopes; one multi-factor block with every per-factor ok/fail combination per refresh; (kind,N,shape,length) in enumerated_per_factor_scopes), then seeded random cases, then seeded cases forced into each class of FORCED",
         "exhaustive": False,
-        "enumerated_scopes": [list(x) for x in enum_scopes], "enumerated_cases": len(explicit) - ncorpus, "corpus_cases": ncorpus, "random_cases": ncases,
+        "enumerated_scopes": [list(x) for x in enum_scopes], "enumerated_per_factor_scopes": [list(x) for x in factor_scopes], "enumerated_cases": len(explicit) - ncorpus, "corpus_cases": ncorpus, "random_cases": ncases,
         "forced_cases_per_class": nforced, "forced_classes": list(FORCED),
         "samples": smp,
         "quantifier_audit": dict(sorted(audit.items())),
